@@ -38,7 +38,7 @@ results=""
 for c in $checks; do
   out=$(cd /verif && timeout 1500 ./check "$c" --tier quick 2>&1 | grep -E "^(VIOLATION|OK|KNOWN)" | head -3)
   echo "$c: $out"
-  results="$results$c: $(echo "$out" | head -1) | "
+  results="$results$c: $(echo "$out" | grep -E "^(VIOLATION|OK)" | head -1) | "
   cp /verif/replays/$c-quick-1.json "/verif/seeded/$id/replay-$c.json" 2>/dev/null
 done
 git -C /repo checkout -- .
